@@ -174,6 +174,36 @@ def execute(spec):
             V("unsolved_although_cover_exists", {"minimum": best})
         if out["solved"] and any(inv.get("delivered") not in ("kOptimal",) for inv in sim.invocations[-1:]):
             V("solved_on_inconclusive_reply", {"delivered": sim.invocations[-1].get("delivered"), "solution": out.get("solution")})
+    # solver-truthfulness cross-check (DESIGN.md section 9): HiGHS's presolve sometimes declares a feasible size
+    # infeasible (numbers [6,16,8,12], total 10, multiplicity 2: k=2 "infeasible" with presolve, [4,6] without).
+    # A wrong size / an unsolved instance is reported only if no native solver configuration gets it right.
+    suspect = [v for v in vs if v["clause"] in ("C15.not_minimum", "C15.unsolved_although_solution_exists", "C15.not_minimum_weight", "C15.unsolved_although_cover_exists")]
+    if suspect and fired == 0:
+        from sim import crosscheck
+        good = False
+        for c in crosscheck.CONFIGS[1:]:
+            cfg = dict(spec["sim"], faults=[], reply="canonical")
+            cfg.update(c)
+            s2 = W.SimWorld(1, cfg)
+            try:
+                with W.active(s2):
+                    m2 = models.build(world)
+                    m2.solve()
+                    if m2.is_solved():
+                        sol2 = m2.get_solution()
+                        if cname == "MinGenSet" and kmin is not None and len(sol2) == max(kmin, lb):
+                            good = True
+                        if cname == "MinSetCover" and abs(sum(weights[i] for i in sol2) - best) <= 1e-9:
+                            good = True
+            except W.Discard:
+                pass
+            except Exception:
+                pass
+            if good:
+                break
+        if good:
+            vs = [v for v in vs if v not in suspect]
+            counters["solver_not_truthful_discrepancy_dismissed"] = 1
     seen, uniq = set(), []
     for v in vs:
         if v.key not in seen:
